@@ -8,6 +8,7 @@ release *is* the environment: solver decisions choose how many pending foreign a
 wait ends by notification or by time-out; physical time is an arbitrary non-decreasing symbolic real.
 """
 import itertools
+import threading as _real_threading
 import z3
 from . import symx
 from .symx import Ctx, PathAbort, SymReal, Violation, Inconclusive
@@ -104,6 +105,30 @@ class World:
         if self.events > self.max_events:
             self.truncated = True
             raise EndPath('event budget')
+
+
+class FakeLocal:
+    """stands in for a threading.local() of the library: one namespace per SIMULATED thread (the clock thread, and the
+    foreign thread while a foreign action runs)"""
+
+    def __init__(self, world, initial=None):
+        object.__setattr__(self, '_w', world)
+        object.__setattr__(self, '_ns', {'clock': dict(initial or {}), 'foreign': {}})
+
+    def _cur(self):
+        return self._ns['foreign' if self._w.in_ext else 'clock']
+
+    def __getattr__(self, name):
+        try:
+            return self._cur()[name]
+        except KeyError:
+            raise AttributeError(name)
+
+    def __setattr__(self, name, value):
+        self._cur()[name] = value
+
+    def __delattr__(self, name):
+        self._cur().pop(name, None)
 
 
 class FakeLock:
@@ -279,6 +304,13 @@ class Sim:
                           ac_signal=getattr(clk.AppClock, '_tick_signal', None))
         self.sh = symx.shims()
         self.sh.__enter__()
+        # thread-local storage held by the main class (if any) becomes per simulated thread
+        self.locals_saved = []
+        for holder in (type(main), main):
+            for name, val in list(vars(holder).items()):
+                if isinstance(val, _real_threading.local):
+                    self.locals_saved.append((holder, name, val))
+                    setattr(holder, name, FakeLocal(w, dict(getattr(val, '__dict__', {}))))
         main.elapsed_time = w.elapsed_time
         self.lock = FakeLock(w, gap=self.appclock_gap)
         main._main_lock = self.lock
@@ -317,6 +349,8 @@ class Sim:
         clk.AppClock._scheduler = s['ac_sched']
         if s['ac_signal'] is not None:
             clk.AppClock._tick_signal = s['ac_signal']
+        for holder, name, val in self.locals_saved:
+            setattr(holder, name, val)
         self.sh.__exit__()
         return False
 
@@ -325,12 +359,9 @@ class Sim:
         main = self.m
 
         def act(world):
-            saved = main.current_tt
-            main.current_tt = main.main_tt
-            try:
-                fn(world)
-            finally:
-                main.current_tt = saved
+            # the action runs as "another thread": thread-local storage of the library is emulated per simulated thread
+            # (FakeLocal below); anything the library keeps in plain globals is shared, as it is between real threads
+            fn(world)
         act.label = label
         self.world.script.append(act)
 
